@@ -10,6 +10,7 @@ the Python objects behind an id rotate through alias forms (1 / 1.0 / True).
   line()   the same history in the line protocol of lean/BoltonsVerif/C01/Driver.lean
   oracle() replays the history on two plain Python lists of pairs - no boltons code, no Lean model
 """
+import ast
 import collections
 import collections.abc
 import copy
@@ -70,6 +71,49 @@ class PlainMapping(collections.abc.Mapping):
         return len(self._d)
 
 
+class RaisingMapping(collections.abc.Mapping):
+    """a mapping that delivers its first `n` items and then raises Boom - from `__getitem__` (style 0) or from the
+    iterator of its keys (style 1); it has one more key than it delivers"""
+
+    def __init__(self, items, extra_key, style):
+        self._items = list(items)
+        self._extra = extra_key
+        self._style = style
+        self._served = 0
+
+    def __getitem__(self, k):
+        for kk, v in self._items:
+            if kk == k:
+                if self._served >= len(self._items):
+                    raise Boom('mapping failed')
+                self._served += 1
+                return v
+        raise Boom('mapping failed')        # (style 2: the key after the delivered ones - a key the receiver may hold)
+
+    def __iter__(self):
+        for k, _ in self._items:
+            yield k
+        if self._style == 1:
+            raise Boom('mapping failed')
+        yield self._extra
+
+    def __len__(self):
+        return len(self._items) + 1
+
+    def keys(self):         # a plain iterator over the keys (not a KeysView: no len, one pass)
+        return iter(self)
+
+
+# mappings with __missing__ (they answer `m[k]` for keys they do not have): form -> value id of the answer
+MISSING_FORMS = {'c': 0, 'd0': 0, 'dn': NONE_V}
+
+
+# malformed items inside an iterable of pairs (what comes after them is never reached)
+MALFORMED = [lambda: ('lonely',), lambda: 5, lambda: ('a', 'b', 'c'), lambda: ([], 1), lambda: None, lambda: ({}, 0)]
+# calls that raise on their first look at the argument: nothing may change
+REJECTS = ['add', 'set', 'del', 'addlist', 'addlist_int', 'pop', 'popall', 'poplast', 'sd', 'upd_none', 'upd_int',
+           'ext_none', 'ext_int', 'ior_int', 'new2', 'upd_pairs_unhashable_first']
+
 MAPPING_FORMS = [dict, collections.OrderedDict, collections.UserDict, lambda d: types.MappingProxyType(dict(d)),
                  PlainMapping, dict]
 _SUBCLASS = {}
@@ -115,6 +159,388 @@ KMAP = {u: _kmap(f) for u, f in KEY_FORMS.items()}
 VMAP = {u: _kmap(f) for u, f in VAL_FORMS.items()}
 
 
+
+# --------------------------------------------------------------------------- translator: static effect table
+# `regen()` reads the CURRENT source of both copies of the class and regenerates, for every public method, whether it may
+# write (a) the dict's own storage, (b) the linked list / its cell index.  Props.lean proves over that table (by `decide`)
+# that no public method writes one structure without the other, that the readers the model treats as pure functions of
+# the state write nothing, that every mutator the model has an operation for is there and writes both, and that no dict
+# mutator is inherited unchanged.  The analysis is transitive (private helpers, module-level helpers, local aliases of
+# bound methods) and does not depend on attribute or helper names.
+
+DICT_MUT = ('__setitem__', '__delitem__', 'setdefault', 'pop', 'popitem', 'clear', 'update', '__ior__')
+DICT_INNER = ('__getitem__', 'get', 'setdefault', 'pop', 'items', 'values', 'popitem')   # hand out the stored value lists
+MUTATING = {'append', 'extend', 'insert', 'pop', 'remove', 'clear', 'sort', 'reverse', 'setdefault', 'update',
+            'popitem', 'add', 'discard', '__setitem__', '__delitem__', '__iadd__'}
+FRESH = {'sorted', 'list', 'tuple', 'set', 'frozenset', 'dict', 'len', 'iter', 'bool', 'repr', 'str', 'int', 'max', 'min',
+         'isinstance', 'callable', 'getattr', 'hasattr', 'type', 'next', 'zip', 'zip_longest', 'range', 'enumerate', 'id'}
+LINK_NAMES = {'PREV', 'NEXT', 'SPREV', 'SNEXT'}
+D, L = 'dict', 'll'
+
+
+def _is_super_call(e):
+    return isinstance(e, ast.Call) and isinstance(e.func, ast.Name) and e.func.id == 'super'
+
+
+def _is_self(e):
+    return isinstance(e, ast.Name) and e.id == 'self'
+
+
+class FnEffects:
+    """flow-insensitive effect analysis of one function: which of the two structures (the dict's own storage / the
+    linked list with its cell index, i.e. every instance attribute) it may write, and which other functions it calls"""
+
+    def __init__(self, fn, method_names, module_funcs, state_attrs=None, is_method=True):
+        self.fn, self.methods, self.funcs, self.state = fn, method_names, module_funcs, state_attrs
+        self.taint = {}          # local name -> set of D / L / 'P:<parameter name>'
+        self.alias = {}          # local name -> ('super', m) | ('self', m) | ('meth', taint, attr) | ('superobj',)
+        self.writes = set()
+        self.calls = set()       # (('self', m) | ('func', f), positional argument taints, keyword argument taints)
+        a = fn.args
+        params = [x.arg for x in a.posonlyargs + a.args]
+        self.params = params[1:] if is_method else params           # without self / cls
+        for name in self.params + [x.arg for x in a.kwonlyargs] + [x.arg for x in (a.vararg, a.kwarg) if x is not None]:
+            self.taint[name] = {'P:' + name}                          # symbolic: whatever the caller passes here
+        for _ in range(4):       # a few rounds: names may be used before the assignment that taints them (loops)
+            for st_ in fn.body:
+                self.visit(st_)
+                # the one flow-sensitive step: a statement at the TOP level of the body that rebinds a name to a new
+                # object (`v = list(v)`) ends what the name stood for - for everything that follows
+                if isinstance(st_, ast.Assign) and len(st_.targets) == 1 and isinstance(st_.targets[0], ast.Name) \
+                        and isinstance(st_.value, ast.Call) and isinstance(st_.value.func, ast.Name) \
+                        and st_.value.func.id in FRESH and st_.value.func.id not in self.alias:
+                    self.taint.pop(st_.targets[0].id, None)
+
+    def is_state(self, attr):
+        if attr in self.methods or attr.startswith('__'):
+            return False
+        return self.state is None or attr in self.state
+
+    # ---- taint of an expression: may evaluating it hand out (part of) one of the structures?
+    def t(self, e):
+        if e is None:
+            return set()
+        if isinstance(e, ast.Name):
+            return set(self.taint.get(e.id, ()))
+        if isinstance(e, ast.Attribute):
+            if _is_self(e.value):
+                return {L} if self.is_state(e.attr) else set()
+            return self.t(e.value)
+        if isinstance(e, ast.Subscript):
+            if isinstance(e.slice, ast.Slice):
+                return set()                      # a slice of a list is a copy
+            if _is_self(e.value):
+                self.calls.add((('self', '__getitem__'), (), ()))
+                return set()
+            return self.t(e.value)
+        if isinstance(e, ast.Call):
+            f = e.func
+            argt = tuple(frozenset(self.t(a)) for a in e.args)                    # (records the self-calls inside, too)
+            kwt = tuple(sorted((k.arg or '**', frozenset(self.t(k.value))) for k in e.keywords))
+            if isinstance(f, ast.Name):
+                al = self.alias.get(f.id)
+                if al:
+                    return self.call_alias(al, argt, kwt)
+                if f.id in self.funcs:
+                    self.calls.add((('func', f.id), argt, kwt))
+                    return set().union(*argt) if argt else set()
+                if f.id in FRESH:
+                    return set()
+                return set().union(*argt) if argt else set()
+            if isinstance(f, ast.Attribute):
+                al = self.alias_of(f)
+                if al[0] == 'super' and al[1] in ('__setitem__', 'setdefault') and len(e.args) >= 2:
+                    # the dict's values are the per-key LISTS: storing an object that came in as an argument (not a new
+                    # list display / copy around it) makes the dictionary share a container with its caller
+                    x = e.args[-1]
+                    if not isinstance(x, (ast.List, ast.Tuple, ast.ListComp)):
+                        self.writes |= {'K' + p for p in argt[-1] if p.startswith('P:')}
+                        if al[1] == 'setdefault':
+                            return self.call_alias(al, argt, kwt) | set(argt[-1])
+                return self.call_alias(al, argt, kwt)
+            return set()
+        if isinstance(e, (ast.ListComp, ast.SetComp, ast.GeneratorExp, ast.DictComp)):
+            for g in e.generators:
+                self.bind(g.target, self.t(g.iter))
+                for c in g.ifs:
+                    self.t(c)
+            if isinstance(e, ast.DictComp):
+                self.t(e.key)
+                return self.t(e.value)            # keys are hashable: what can be written through is the values
+            return self.t(e.elt)
+        if isinstance(e, (ast.Tuple, ast.List, ast.Set)):
+            return set().union(*[self.t(x) for x in e.elts]) if e.elts else set()
+        if isinstance(e, ast.IfExp):
+            self.t(e.test)
+            return self.t(e.body) | self.t(e.orelse)
+        if isinstance(e, ast.BoolOp):
+            return set().union(*[self.t(x) for x in e.values])
+        if isinstance(e, ast.Starred):
+            return self.t(e.value)
+        if isinstance(e, ast.Compare):
+            self.t(e.left)
+            for c in e.comparators:
+                self.t(c)
+            return set()
+        if isinstance(e, (ast.BinOp,)):
+            self.t(e.left), self.t(e.right)
+            return set()
+        if isinstance(e, ast.UnaryOp):
+            self.t(e.operand)
+            return set()
+        if isinstance(e, (ast.Yield, ast.YieldFrom, ast.Await)):
+            self.t(e.value)
+            return set()
+        if isinstance(e, ast.JoinedStr):
+            for v in e.values:
+                if isinstance(v, ast.FormattedValue):
+                    self.t(v.value)
+            return set()
+        return set()
+
+    def alias_of(self, f):
+        """what a bound-method expression `X.attr` refers to"""
+        v = f.value
+        if _is_super_call(v) or (isinstance(v, ast.Name) and self.alias.get(v.id) == ('superobj',)):
+            return ('super', f.attr)
+        if _is_self(v):
+            if f.attr in self.methods:
+                return ('self', f.attr)
+            return ('meth', frozenset({L}) if self.is_state(f.attr) else frozenset(), f.attr)
+        if isinstance(v, ast.Name) and v.id == 'dict':
+            return ('super', f.attr)              # dict.M(self, ...)
+        return ('meth', frozenset(self.t(v)), f.attr)
+
+    def call_alias(self, al, argt=(), kwt=()):
+        if al[0] == 'super':
+            if al[1] in DICT_MUT:
+                self.writes.add(D)
+            return {D} if al[1] in DICT_INNER else set()
+        if al[0] == 'self':
+            self.calls.add((al, argt, kwt))
+            return set()
+        if al[0] == 'meth':
+            if al[2] in MUTATING:
+                self.writes |= set(al[1])
+            return set(al[1])
+        return set()
+
+    def bind(self, target, taint):
+        if isinstance(target, ast.Name):
+            if taint:
+                self.taint[target.id] = set(self.taint.get(target.id, ())) | taint
+        elif isinstance(target, (ast.Tuple, ast.List)):
+            for x in target.elts:
+                self.bind(x, taint)
+        elif isinstance(target, ast.Starred):
+            self.bind(target.value, taint)
+        else:
+            self.store(target)
+
+    def store(self, target):
+        """an assignment / deletion THROUGH a subscript or an attribute writes the object it goes through"""
+        if isinstance(target, (ast.Tuple, ast.List)):
+            for x in target.elts:
+                self.store(x)
+        elif isinstance(target, ast.Subscript):
+            if _is_self(target.value):
+                self.calls.add((('self', '__setitem__'), (), ()))       # (or __delitem__: the caller says which)
+                return
+            self.writes |= self.t(target.value)
+            if isinstance(target.slice, ast.Name) and target.slice.id in LINK_NAMES:
+                self.writes.add(L)
+        elif isinstance(target, ast.Attribute):
+            if _is_self(target.value):
+                if self.is_state(target.attr):
+                    self.writes.add(L)
+            else:
+                self.writes |= self.t(target.value)
+
+    def assign(self, target, value):
+        if isinstance(target, (ast.Tuple, ast.List)) and isinstance(value, (ast.Tuple, ast.List)) \
+                and len(target.elts) == len(value.elts):
+            for a, b in zip(target.elts, value.elts):
+                self.assign(a, b)
+            return
+        if isinstance(target, ast.Name):
+            if _is_super_call(value):
+                self.alias[target.id] = ('superobj',)
+                return
+            if isinstance(value, ast.Attribute) and not (_is_self(value.value) and value.attr not in self.methods
+                                                         and not isinstance(value.ctx, ast.Store)
+                                                         and False):
+                al = self.alias_of(value)
+                if al[0] in ('super', 'self') or (al[0] == 'meth' and not _is_self(value.value)):
+                    self.alias[target.id] = al
+                    # a plain attribute read of a tainted object also hands the object on
+                    if al[0] == 'meth':
+                        self.bind(target, set(al[1]))
+                    return
+            self.bind(target, self.t(value))
+        else:
+            self.t(value)
+            self.store(target)
+
+    def visit_body(self, body):
+        for s in body:
+            self.visit(s)
+
+    def visit(self, s):
+        if isinstance(s, ast.Assign):
+            for tg in s.targets:
+                self.assign(tg, s.value)
+        elif isinstance(s, ast.AnnAssign):
+            if s.value is not None:
+                self.assign(s.target, s.value)
+        elif isinstance(s, ast.AugAssign):
+            self.t(s.value)
+            if isinstance(s.target, ast.Name):
+                self.writes |= self.t(s.target)              # `values += more` extends the list in place
+            else:
+                self.store(s.target)
+        elif isinstance(s, ast.Delete):
+            for tg in s.targets:
+                if isinstance(tg, ast.Subscript) and _is_self(tg.value):
+                    self.calls.add((('self', '__delitem__'), (), ()))
+                elif not isinstance(tg, ast.Name):
+                    self.store(tg)
+        elif isinstance(s, (ast.For, ast.AsyncFor)):
+            it = s.iter
+            if _is_self(it):
+                self.calls.add((('self', '__iter__'), (), ()))
+            self.bind(s.target, self.t(it))
+            self.visit_body(s.body)
+            self.visit_body(s.orelse)
+        elif isinstance(s, ast.While):
+            self.t(s.test)
+            self.visit_body(s.body)
+            self.visit_body(s.orelse)
+        elif isinstance(s, ast.If):
+            self.t(s.test)
+            self.visit_body(s.body)
+            self.visit_body(s.orelse)
+        elif isinstance(s, (ast.With, ast.AsyncWith)):
+            for it in s.items:
+                tt = self.t(it.context_expr)
+                if it.optional_vars is not None:
+                    self.bind(it.optional_vars, tt)
+            self.visit_body(s.body)
+        elif isinstance(s, ast.Try):
+            self.visit_body(s.body)
+            for h in s.handlers:
+                self.visit_body(h.body)
+            self.visit_body(s.orelse)
+            self.visit_body(s.finalbody)
+        elif isinstance(s, (ast.Expr, ast.Return)):
+            self.t(s.value)
+        elif isinstance(s, ast.Raise):
+            self.t(s.exc)
+        elif isinstance(s, ast.Assert):
+            self.t(s.test)
+        elif isinstance(s, (ast.FunctionDef, ast.AsyncFunctionDef)):
+            self.visit_body(s.body)                           # a nested helper: its effects count for the outer one
+
+
+ORDERED_READERS = ('iteritems', 'iterkeys', 'itervalues', '__reversed__')
+
+
+def _state_attrs(meths, funcs):
+    """the instance attributes that make up the linked list and its cell index: those the ordered readers consult
+    (through any private helper) and those the functions that re-link cells work with.  Any other attribute a
+    method may set (a memo, a counter) is not part of the pair list."""
+    def loads(fn):
+        return {n.attr for n in ast.walk(fn) if isinstance(n, ast.Attribute) and _is_self(n.value)
+                and n.attr not in meths and not n.attr.startswith('__')}
+
+    def self_calls(fn):
+        out = set()
+        for n in ast.walk(fn):
+            if isinstance(n, ast.Attribute) and _is_self(n.value) and n.attr in meths:
+                out.add(n.attr)
+        return out
+
+    def links(fn):
+        return any(isinstance(n, ast.Subscript) and isinstance(n.ctx, ast.Store) and isinstance(n.slice, ast.Name)
+                   and n.slice.id in LINK_NAMES for n in ast.walk(fn))
+
+    def calls_linking_func(fn):
+        return any(isinstance(n, ast.Call) and isinstance(n.func, ast.Name) and n.func.id in funcs
+                   and links(funcs[n.func.id]) for n in ast.walk(fn))
+    if not any(r in meths for r in ORDERED_READERS):
+        return None
+    todo, seen = [r for r in ORDERED_READERS if r in meths], set()
+    while todo:
+        m = todo.pop()
+        if m not in seen:
+            seen.add(m)
+            todo += [c for c in self_calls(meths[m]) if c not in seen]
+    state = set()
+    for m in seen:
+        state |= loads(meths[m])
+    for m, fn in meths.items():
+        if links(fn) or calls_linking_func(fn):
+            state |= loads(fn)
+    return state
+
+
+def class_effects(path, clsname='OrderedMultiDict'):
+    tree = ast.parse(open(path).read())
+    funcs = {n.name: n for n in tree.body if isinstance(n, ast.FunctionDef)}
+    cls = next(n for n in tree.body if isinstance(n, ast.ClassDef) and n.name == clsname)
+    meths = {n.name: n for n in cls.body if isinstance(n, ast.FunctionDef)}
+    state = _state_attrs(meths, funcs)
+    fx = {}
+    for name, fn in meths.items():
+        fx[('self', name)] = FnEffects(fn, set(meths), set(funcs), state)
+    for name, fn in funcs.items():
+        fx[('func', name)] = FnEffects(fn, set(), set(funcs), is_method=False)
+    eff = {k: set(v.writes) for k, v in fx.items()}
+
+    def at_call(callee, argt, kwt):
+        """the callee's effects seen from the call site: a write through one of ITS parameters is a write through
+        whatever the caller passed there"""
+        out = set()
+        kw = dict(kwt)
+        for x in eff[callee]:
+            if not x.startswith(('P:', 'KP:')):
+                out.add(x)
+                continue
+            keeps = x.startswith('K')
+            name = x[3:] if keeps else x[2:]
+            ps = fx[callee].params
+            got = set()
+            if name in ps and ps.index(name) < len(argt):
+                got |= argt[ps.index(name)]
+            elif name in kw:
+                got |= kw[name]
+            elif '**' in kw:
+                got |= kw['**']
+            elif name not in ps:                 # *args / **kwargs of the callee: anything the caller passed
+                got |= set().union(*argt) if argt else set()
+                for v in kw.values():
+                    got |= v
+            out |= {'K' + g for g in got if g.startswith('P:')} if keeps else got
+        return out
+    changed = True
+    while changed:
+        changed = False
+        for k, v in fx.items():
+            for c, argt, kwt in v.calls:
+                if c in eff:
+                    new = at_call(c, argt, kwt)
+                    if not new <= eff[k]:
+                        eff[k] |= new
+                        changed = True
+    rows = []
+    for name in meths:
+        if name == '__new__' or (name.startswith('_') and not name.startswith('__')):
+            continue
+        e = eff[('self', name)]
+        rows.append((name, D in e, L in e, any(x.startswith('P:') for x in e), any(x.startswith('KP:') for x in e)))
+    inherited = [m for m in DICT_MUT if m not in meths]
+    return rows, inherited, sorted(state or [])
+
+
 class Ctx:
     """materialises ids as Python objects (rotating alias forms) and maps objects back to ids"""
 
@@ -123,6 +549,8 @@ class Ctx:
         self.n = case.get('fs', 0)
         self.none_ok = not _mentions_none(case['ops'])
         self.dflt = DEFAULT
+        self.views = {}
+        self.iters = []
 
     def D(self):
         """the next object to hand in as `default`; results are compared with it by identity"""
@@ -186,7 +614,7 @@ class Ctx:
 def _mentions_none(x):
     """does a history mention the value id of None (or setdefault without a default)?"""
     if isinstance(x, list):
-        if len(x) == 3 and x[0] == 'sd' and x[2] < 0:
+        if len(x) == 3 and x[0] in ('sd', 'fk') and isinstance(x[2], int) and x[2] < 0:
             return True
         return any(_mentions_none(y) for y in x)
     return x == NONE_V and x is not True
@@ -201,11 +629,18 @@ class C01(Property):
             'same class, the sibling class or a subclass), a mapping (dict, OrderedDict, UserDict, mappingproxy, a bare '
             'collections.abc.Mapping), a list / generator / iterator / zip of pairs, a snapshot of its own pairs or its own '
             'todict(), keyword arguments, setdefault, pop, popall, poplast, popitem, clear, copy(), copy.copy, '
-            'copy.deepcopy, pickle protocols 0-5, ==/!= against OMDs, mappings, its own todict() and non-mappings, '
-            'sorted, sortedvalues) on two registers, over 4 key ids x 5 value ids whose Python objects rotate through '
+            'copy.deepcopy, pickle protocols 0-5, ==/!= (and the reflected forms) against OMDs, mappings, mappings with '
+            '__missing__ (Counter, defaultdict), its own todict() and non-mappings, sorted, sortedvalues, fromkeys, the view '
+            'objects viewkeys / viewvalues / viewitems (made once per dictionary object and read again after every later op), '
+            'repr, a copy that contains itself (repr, deepcopy, pickle), iterators left half-consumed across mutations and '
+            'drained later) on two registers, over 4 key ids x 5 value ids whose Python objects rotate through '
             'alias forms (1/1.0/True, None, tuples; one universe where every key and every value is falsy), on '
             'dictutils.OrderedMultiDict, urlutils.QueryParamDict and the standalone copy of the class in urlutils.py. '
-            'Argument iterables may raise half way (the exception must propagate and leave a consistent dictionary); '
+            'Argument iterables may raise half way, mapping arguments may raise from their key iterator or from __getitem__ '
+            '(also for a key the receiver holds), iterables of pairs may contain a malformed item (1-tuple, 3-tuple, int, None, '
+            'unhashable key) - the exception must propagate and leave a consistent dictionary that holds a prefix of the '
+            'argument; calls outside the domain (unhashable key, argument not iterable, two positional arguments) must leave '
+            'the pairs as they are; '
             'caller-supplied defaults rotate through a private object and falsy objects (None where None is not a '
             'value); after each call the harness scribbles on every object it handed in and on every list / dict / OMD '
             'it got back (nothing may be kept or handed out by reference). EVERY reader of `s` (and the keyed and '
@@ -223,16 +658,52 @@ class C01(Property):
         'popitem() removes some present key with all its values and returns it with its most recent value; the oracle '
         'does not prescribe which key (the model and the fix use the key of the most recently inserted pair)',
         'sortedvalues: the oracle accepts any order among values whose sort keys are equal; sorted() is stable like sorted()',
-        'fromkeys, the view objects and FastIterOrderedMultiDict are outside the property statement',
+        'FastIterOrderedMultiDict is outside the property statement; fromkeys and the view objects are modelled as the code defines '
+        'them (fromkeys = the constructor on (key, default) pairs; a view reads the current state through the public readers) and '
+        'compared with the model; the ORACLE, which judges by the statement alone, demands only: fromkeys gives a consistent '
+        'dictionary holding one pair per listed key or one per distinct key; reading a view never raises and a view made earlier '
+        'shows what a view made now shows',
+        'a mapping with __missing__ (Counter, defaultdict) is a mapping: == is true only when it HAS the same keys',
+        'a dictionary that contains itself as a value: repr must not raise (what it prints for the inner occurrence is not prescribed)',
+        'calls outside the domain of the statement (unhashable key, non-iterable argument, too many arguments): any exception, or '
+        'none, is accepted; the pairs must be unchanged. A malformed item inside an iterable of pairs: any exception after a prefix '
+        'was taken over, or the item is skipped and every well-formed pair is taken (the model: the exception, as the code does)',
         'an argument iterable that raises: the exception must propagate; how many of the items yielded before were '
         'taken over is not prescribed by the oracle (any prefix; the model/code: all of them for update / update_extend, '
         'none for addlist), but every reader must agree with that one list of pairs afterwards. Malformed items '
-        '(not pairs) and mappings whose __getitem__ raises are outside the model',
+        '(not pairs) and mappings whose __getitem__ / keys() raise are in the model as abort operations; the model is asked about the '
+        'prefix the implementation was seen to take',
         'an OMD of the sibling class or of a subclass counts as an OMD (isinstance), any collections.abc.Mapping as a mapping',
     ]
     CORRESPONDENCE_NAME = ('C01.Driver (concrete model: dict of value lists + pointer-level linked list of cells + per-key '
-                           'cell index _map; readers through its abstraction, reversed() along PREV) vs boltons '
+                           'cell index _map; readers through its abstraction, reversed() along PREV; ownership layer: list '
+                           'objects of the storage vs the lists the caller holds and writes to) vs boltons '
                            'OrderedMultiDict (dictutils, urlutils copy, QueryParamDict)')
+
+    # ------------------------------------------------------------------ translator hook
+    def regen(self):
+        lines = ['/- GENERATED by harness/bv/props/c01.py from boltons/dictutils.py and boltons/urlutils.py (static effect',
+                 '   analysis of the AST of both copies of class OrderedMultiDict). Do not edit. -/',
+                 'namespace Generated.C01', '',
+                 '/-- one public method: may it write the dict\'s own storage / the linked list with its cell index? -/',
+                 'structure Method where', '  file : String', '  name : String', '  dictW : Bool', '  llW : Bool',
+                 '  argW : Bool   -- may it write THROUGH one of its arguments (change an object the caller passed in)?',
+                 '  keepsArg : Bool   -- may it store an argument object itself as a per-key value list?',
+                 'deriving Repr, DecidableEq', '', 'def methods : List Method := [']
+        rows, inh, states = [], [], []
+        for mod in ('dictutils', 'urlutils'):
+            r, i, st = class_effects(os.path.join(common.REPO, 'boltons', mod + '.py'))
+            rows += [(mod, n, d, l, a, kp) for n, d, l, a, kp in r]
+            inh += [(mod, m) for m in i]
+            states.append('%s: %s' % (mod, ', '.join(st) or '(every instance attribute)'))
+        lines += ['  ⟨"%s", "%s", %s, %s, %s, %s⟩%s' % (f, n, str(d).lower(), str(l).lower(), str(a).lower(), str(kp).lower(),
+                                                       ',' if j < len(rows) - 1 else '')
+                  for j, (f, n, d, l, a, kp) in enumerate(rows)]
+        lines += [']', '', '/-- dict mutators the class does not override (they would change the dict behind the list\'s back) -/',
+                  'def inheritedMutators : List (String × String) := [%s]' % ', '.join('("%s", "%s")' % p for p in inh), '',
+                  '-- instance attributes counted as the linked list / cell index: ' + '; '.join(states), '',
+                  'end Generated.C01', '']
+        return {'C01_Effects.lean': '\n'.join(lines)}
 
     # ------------------------------------------------------------------ generation
     def _full_alphabet(self):
@@ -264,13 +735,22 @@ class C01(Property):
               ['eq', ['x', 'td']], ['eq', ['sl']],
               # keyword arguments that collide with the positional argument (they win, and come last)
               ['upd', ['m', [[0, 1]]], [[0, 0]]], ['upd', ['p', 'l', [[0, 1], [1, 1]]], [[0, 0]]]]
+        # round 3: mappings that raise half way, malformed items, rejected calls, fromkeys
+        A += [['upd', ['mx', [[1, 1], [0, 0]]], []], ['ext', ['mx', [[0, 1]]], []], ['ior', ['mx', []]],
+              ['new', ['mx', [[0, 0]]], []], ['upd', ['p', 'y', [[0, 0], [1, 1], [0, 1]]], []],
+              ['ext', ['p', 'y', [[1, 0]]], []], ['new', ['p', 'y', [[0, 1]]], []], ['ior', ['p', 'y', []]],
+              ['rej', 'add'], ['rej', 'upd_none'], ['rej', 'poplast'], ['rej', 'addlist_int'],
+              ['fk', [0, 1, 0], 1], ['fk', [1], -1], ['fk', [], 0], ['it', 0], ['it', 1], ['drain'],
+              ['eq', ['mm', 'c', [[1, 0]]]], ['eq', ['mm', 'd0', [[0, 0]]]], ['upd', ['mm', 'c', [[0, 1], [1, 0]]], []],
+              ['selfrepr', 0]]
         return A
 
     def _core_alphabet(self):
         return [['add', 0, 0], ['add', 0, 1], ['add', 1, 0], ['set', 0, 1], ['set', 1, 1], ['del', 0],
                 ['addlist', 1, 'i', [1, 0]], ['poplast', 0, 0], ['poplast', -1, 0], ['popitem'], ['pop', 1, 1],
                 ['sd', 1, 0], ['upd', ['p', 'l', [[1, 1], [0, 0], [1, 0]]], []], ['upd', ['t'], []],
-                ['ext', ['s'], []], ['cp', 'cc', 't'], ['swap'], ['upd', ['m', [[0, 0], [1, 1]]], []]]
+                ['ext', ['s'], []], ['cp', 'cc', 't'], ['swap'], ['upd', ['m', [[0, 0], [1, 1]]], []],
+                ['upd', ['mx', [[1, 0], [0, 1]]], []]] + ([] if self.thorough else [['it', 1], ['drain']])
 
     def _mk(self, ops, i=0, u=None):
         u = u or ('S', 'I', 'S', 'N', 'F')[i % 5]
@@ -303,7 +783,7 @@ class C01(Property):
             for h in itertools.product(core, repeat=n):
                 i += 1
                 yield self._mk(list(h), i)
-        n_rand = 60000 if self.thorough else 5000
+        n_rand = 45000 if self.thorough else 3500
         for j in range(n_rand):
             yield self.random_case(rng, long=self.thorough and j % 8 == 0)
 
@@ -342,7 +822,13 @@ class C01(Property):
             return ['m', self._rmapping(rng, nk, vmax)]
         if for_eq and r < 0.72:
             return ['x', rng.choice(['l', 'n', 'i', 'td', 'td'])]
-        return ['p', 'x' if rng.random() < 0.08 else rng.choice(PAIR_KINDS), self._rpairs(rng, nk, vmax=vmax)]
+        if r < 0.76 and (for_eq or r < 0.73):
+            return ['mm', rng.choice(sorted(MISSING_FORMS)), self._rmapping(rng, nk, vmax)]
+        if not for_eq and r < 0.69:
+            return ['mx', self._rmapping(rng, nk, vmax)]
+        q = rng.random()
+        return ['p', 'x' if q < 0.08 else 'y' if (q < 0.14 and not for_eq) else rng.choice(PAIR_KINDS),
+                self._rpairs(rng, nk, vmax=vmax)]
 
     def random_case(self, rng, long=False):
         u = rng.choice(['S', 'S', 'I', 'N', 'F'])
@@ -385,8 +871,16 @@ class C01(Property):
                 ops.append(['poplast', k if rng.random() < 0.6 else -1, rng.randint(0, 1)])
             elif r < 0.70:
                 ops.append(['popitem'])
-            elif r < 0.71:
+            elif r < 0.705:
                 ops.append(['clear'])
+            elif r < 0.71:
+                ops.append(['it', rng.randint(0, 3)] if rng.random() < 0.7 else ['drain'])
+                if rng.random() < 0.15:
+                    ops.append(['selfrepr', k])
+            elif r < 0.715:
+                ops.append(['rej', rng.choice(REJECTS)])
+            elif r < 0.72:
+                ops.append(['fk', [rng.randrange(nk) for _ in range(rng.randint(0, 4))], v if rng.random() < 0.7 or nf else -1])
             elif r < 0.78:
                 ops.append(['cp', rng.choice(COPY_KINDS), rng.choice('st')])
             elif r < 0.82:
@@ -476,6 +970,37 @@ class C01(Property):
                   ['new', ['p', 'x', P], []], ['upd', ['p', 'x', [[3, 1]]], [[0, 0]]]):
             H.append([X, ['add', 0, 0], X])
             H.append([base, X, ['poplast', 0, 1], ['add', 3, 1], X, ['popitem']])
+        # round 3: mappings that raise half way (from __getitem__ / from the key iterator), malformed items of every
+        # kind after a well-formed prefix, calls that must be rejected without touching anything, fromkeys
+        for X in (['upd', ['mx', [[3, 0], [0, 1]]], []], ['upd', ['mx', []], []], ['ext', ['mx', [[0, 2], [3, 1]]], []],
+                  ['ior', ['mx', [[1, 3]]]], ['new', ['mx', [[0, 1]]], []], ['upd', ['mx', [[0, 1]]], [[0, 0]]],
+                  ['upd', ['p', 'y', P], []], ['upd', ['p', 'y', []], []], ['ext', ['p', 'y', P], []],
+                  ['ior', ['p', 'y', [[1, 3], [3, 3], [1, 2]]]], ['new', ['p', 'y', P], []]):
+            H.append([X, ['add', 0, 0], X])
+            H.append([base] + [X, ['poplast', 0, 1], ['add', 3, 1]] * 3 + [['popitem']])
+        H.append([base] + [['rej', w] for w in REJECTS] + [['add', 0, 1]] + [['rej', w] for w in REJECTS])
+        H.append([['rej', w] for w in REJECTS])
+        # a dictionary that contains itself as a value (a plain list of pairs prints `[...]` there)
+        H.append([['selfrepr', 1], base, ['selfrepr', 0], ['selfrepr', 3], ['poplast', 0, 0], ['selfrepr', 2]])
+        for ks in ([0, 1, 0, 3, 0], [], [2], [1, 1, 1]):
+            H.append([base, ['fk', ks, 2], ['add', 0, 1], ['poplast', 0, 0], ['fk', ks, -1], ['eq', ['t']]])
+        # iterators left half-consumed while the dictionary changes under them, drained later: whatever they yield
+        # (not prescribed), the dictionary itself must stay the plain list of pairs
+        for m in (['add', 0, 3], ['set', 0, 3], ['del', 0], ['addlist', 0, 'i', [1, 2]], ['pop', 0, 0], ['popall', 1, 0],
+                  ['poplast', 0, 0], ['poplast', -1, 0], ['popitem'], ['sd', 3, 1], ['upd', ['p', 'g', [[3, 0], [3, 1], [0, 0]]], []],
+                  ['upd', ['m', [[0, 1], [3, 1]]], []], ['ext', ['s'], []], ['clear'], ['cp', 'cc', 's']):
+            H.append([base, ['it', 1], m, ['it', 2], ['poplast', 0, 1], ['drain'], ['add', 0, 1], ['it', 0], ['clear'], ['drain'],
+                      ['add', 1, 1]])
+        # mappings with __missing__ (Counter, defaultdict): a key the mapping lacks must not be answered by its default
+        for form in sorted(MISSING_FORMS):
+            z = MISSING_FORMS[form]
+            for h in ([['add', 0, z], ['eq', ['mm', form, [[1, z]]]], ['eq', ['mm', form, [[0, z]]]], ['eq', ['mm', form, []]]],
+                      [['add', 0, 1], ['add', 1, 2], ['add', 0, z], ['eq', ['mm', form, [[1, 2], [3, 1]]]],
+                       ['eq', ['mm', form, [[1, 2], [0, z]]]], ['eq', ['mm', form, [[1, 2], [2, z]]]], ['upd', ['mm', form, [[2, 1]]], []],
+                       ['eq', ['mm', form, [[1, 2], [2, 1], [3, z]]]], ['ext', ['mm', form, [[0, 3]]], []], ['new', ['mm', form, [[1, 1]]], []]],
+                      [base, ['eq', ['mm', form, [[0, 2], [1, 0], [3, 3]]]], ['set', 2, z], ['eq', ['mm', form, [[0, 2], [1, 0], [3, 3]]]],
+                       ['eq', ['mm', form, [[0, 2], [1, 0], [2, z]]]]]):
+                H.append(h)
         # caller-supplied defaults (falsy ones included) for every method that takes one, on absent and present keys
         D = [['pop', 3, 1], ['poplast', 3, 1], ['popall', 3, 1], ['poplast', -1, 1]]
         H.append(D * 4)
@@ -513,6 +1038,8 @@ class C01(Property):
             return 'S'
         if E[0] == 'sd' or E == ['x', 'td']:
             return 'D'
+        if E[0] == 'mm':
+            return 'm' + self._pairs_tok(E[2])
         if E[0] == 'x':
             return 'x'
         if E[0] == 'p':
@@ -521,7 +1048,51 @@ class C01(Property):
 
     @staticmethod
     def _aborts(E):
-        return E is not None and E[0] == 'p' and E[1] == 'x'
+        return E is not None and ((E[0] == 'p' and E[1] in ('x', 'y')) or E[0] == 'mx')
+
+    def _taken(self, case, idx, default):
+        """how many items of a raising argument the implementation was seen to take over at op #idx (the statement leaves
+        it open; the oracle accepts every prefix): the model is asked about that prefix.  Unknown -> what the code does."""
+        rec = getattr(self, '_seen_taken', {}).get(id(case))
+        if rec is not None and rec[0] is case:
+            return rec[1].get(idx, default)
+        return default
+
+    def _note_taken(self, case, out):
+        """after impl(): read the number of items taken over by each aborted call off the pair lists before / after it"""
+        js = {}
+        ops = case['ops']
+        for idx, op in enumerate(ops):
+            if idx >= len(out) or 'dump' not in out[idx] or out[idx]['ret'][0] != 'X':
+                continue
+            after = out[idx]['dump'].get('im')
+            before = out[idx - 1]['dump'].get('im') if idx and 'dump' in out[idx - 1] else []
+            if not isinstance(after, list) or not isinstance(before, list):
+                continue
+            if op[0] == 'addlist' and op[2] == 'x':
+                js[idx] = max(0, min(len(op[3]), len(after) - len(before)))
+            elif op[0] in ('upd', 'ior', 'ext') and self._aborts(op[1]):
+                ps = [tuple(p) for p in op[1][-1]]
+                L = [tuple(p) for p in before]
+                for j in range(len(ps), -1, -1):
+                    if op[0] == 'ext':
+                        c = L + ps[:j]
+                    elif op[1][0] == 'mx':
+                        c = L
+                        for k, v in ps[:j]:
+                            c = self._assign(c, k, v)
+                    else:
+                        c = self._replace_by(L, ps[:j])
+                    if [list(p) for p in c] == after:
+                        js[idx] = j
+                        break
+        m = self.__dict__.setdefault('_seen_taken', {})
+        if len(m) > 20000:
+            m.clear()
+        if js:
+            m[id(case)] = (case, js)
+        else:
+            m.pop(id(case), None)
 
     def line(self, case):
         toks = [str(NK)]
@@ -529,14 +1100,18 @@ class C01(Property):
             o = op[0]
             if o in ('new', 'upd', 'ext', 'ior') and self._aborts(op[1]):
                 # the argument iterable raises after its pairs: keyword arguments are never reached
-                toks.append({'new': 'newx', 'upd': 'updx:', 'ior': 'updx:', 'ext': 'extx:'}[o]
-                            + ('' if o == 'new' else self._pairs_tok(op[1][2])))
+                mx = op[1][0] == 'mx'
+                taken = op[1][-1][:self._taken(case, len(toks) - 1, len(op[1][-1]))]
+                toks.append({'new': 'newx', 'upd': 'updmx:' if mx else 'updx:', 'ior': 'updmx:' if mx else 'updx:',
+                             'ext': 'extx:'}[o] + ('' if o == 'new' else self._pairs_tok(taken)))
             elif o == 'new':
                 toks.append('new:%s:%s' % (self._arg_tok(op[1]), self._pairs_tok(op[2])))
             elif o in ('add', 'set'):
                 toks.append('%s:%d:%d' % (o, op[1], op[2]))
             elif o == 'addlist':
-                toks.append('addlist%s:%d:%s' % ('x' if op[2] == 'x' else '', op[1], ','.join(map(str, op[3])) or '-'))
+                # `L`: the argument is a list OBJECT of the caller's, which the caller writes to after the call
+                vs = op[3][:self._taken(case, len(toks) - 1, 0)] if op[2] == 'x' else op[3]
+                toks.append('addlist%s:%d:%s' % ({'x': 'x', 'l': 'L'}.get(op[2], ''), op[1], ','.join(map(str, vs)) or '-'))
             elif o == 'del':
                 toks.append('del:%d' % op[1])
             elif o in ('upd', 'ext'):
@@ -551,6 +1126,12 @@ class C01(Property):
                 toks.append('poplast:%s:%d' % ('-' if op[1] < 0 else op[1], op[2]))
             elif o in ('popitem', 'clear', 'swap'):
                 toks.append(o)
+            elif o == 'rej':
+                toks.append('rej')
+            elif o in ('it', 'drain', 'selfrepr'):
+                toks.append('nop')
+            elif o == 'fk':
+                toks.append('fk:%s:%d' % (','.join(map(str, op[1])) or '-', NONE_V if op[2] < 0 else op[2]))
             elif o == 'cp':
                 toks.append('cpt' if op[2] == 't' else 'cps')
             elif o == 'eq':
@@ -578,6 +1159,19 @@ class C01(Property):
             return cx.omd_class(cls, _classes())(cx.pairs(E[1]))
         if kind == 'm':
             return cx.mapping(cx.pairs(E[1]))
+        if kind == 'mm':
+            ps = dict(cx.pairs(E[2]))
+            if E[1] == 'c':
+                return collections.Counter(ps)
+            z = cx.V(MISSING_FORMS[E[1]])
+            return collections.defaultdict(lambda: z, ps)
+        if kind == 'mx':
+            cx.n += 1
+            style = cx.n % 3
+            # style 2: the value of a key the receiver may well hold cannot be read (a replacement that deletes the old
+            # pairs before it has the new value would leave the key half replaced)
+            extra = KEY_FORMS[cx.u][(E[1][-1][0] + 1) % NK if E[1] else 0][0] if style == 2 else ('never', 'a key')
+            return RaisingMapping(cx.pairs(E[1]), extra, style)
         if kind == 'x':
             return {'l': lambda: list(s.items(multi=True)), 'n': lambda: None, 'i': lambda: 5,
                     'td': lambda: s.todict()}[E[1]]()
@@ -593,6 +1187,9 @@ class C01(Property):
             return iter(ps)
         if pk == 'x':
             return _raising(ps)
+        if pk == 'y':                   # a malformed item after the well-formed ones; what follows is never reached
+            cx.n += 1
+            return ps + [MALFORMED[cx.n % len(MALFORMED)](), (cx.K(0), cx.V(0))]
         return zip([p[0] for p in ps], [p[1] for p in ps])
 
     @staticmethod
@@ -606,7 +1203,7 @@ class C01(Property):
                     a.add(k, JUNK)
                 a.add(JUNK, JUNK)
                 a.clear()
-            elif kind in ('m', 'sd') and hasattr(a, 'clear'):
+            elif kind in ('m', 'sd', 'mm') and hasattr(a, 'clear'):
                 a[JUNK] = JUNK
                 a.clear()
             elif kind in ('p', 'sl') and isinstance(a, list):
@@ -616,6 +1213,8 @@ class C01(Property):
                 for p in a:
                     p.append(JUNK)
                     p.reverse()
+        except CaseTimeout:
+            raise                   # (one-shot timer: a swallowed timeout would leave a looping implementation unguarded)
         except Exception:
             pass
 
@@ -623,6 +1222,22 @@ class C01(Property):
         return {KEY_FORMS[cx.u][k][0]: cx.V(v) for k, v in F}
 
     def impl(self, case):
+        out = self._impl_once(case, 1 if self.stats.get('timeouts') else 10)
+        if out and out[-1].get('exc') == 'CaseTimeout' and not self.stats.get('timeouts'):
+            # the first timeout of a run is looked at twice: a history takes milliseconds, and a machine shared with
+            # other jobs can stall for seconds; a looping implementation times out again (then 1 s per case from here on)
+            out2 = self._impl_once(case, 30)
+            if out2 and out2[-1].get('exc') == 'CaseTimeout':
+                self.stats['timeouts'] = 1
+            else:
+                self.stats['stalls_retried'] = self.stats.get('stalls_retried', 0) + 1
+            out = out2
+        elif out and out[-1].get('exc') == 'CaseTimeout':
+            self.stats['timeouts'] = self.stats.get('timeouts', 0) + 1
+        self._note_taken(case, out)
+        return out
+
+    def _impl_once(self, case, limit):
         classes = _classes()
         cls = classes[case['c']]
         cx = Ctx(case)
@@ -630,13 +1245,12 @@ class C01(Property):
         try:
             # a history takes milliseconds; once a case has timed out (a looping implementation)
             # the following ones get 1 s instead of 10 s so that the run still ends
-            with time_limit(1 if self.stats.get('timeouts') else 10):
+            with time_limit(limit):
                 s, t = cls(), cls()
                 for op in case['ops']:
                     ret, s, t = self._apply(cx, cls, s, t, op)
                     out.append({'ret': ret, 'dump': self._dump(cx, s, t)})
         except CaseTimeout:
-            self.stats['timeouts'] = self.stats.get('timeouts', 0) + 1
             out.append({'exc': 'CaseTimeout'})
         except Exception as e:      # harness-level surprise: recorded, judged by the oracle
             out.append({'exc': exc_name(e), 'msg': str(e)[:200]})
@@ -719,6 +1333,50 @@ class C01(Property):
                     return ['KV', cx.kid(r[0]), cx.vid(r[1])], s, t
                 elif o == 'clear':
                     r = s.clear()
+                elif o == 'it':
+                    its = [s.iteritems(multi=True), s.iterkeys(), s.itervalues(), iter(s), reversed(s), s.iteritems(),
+                           s.iterkeys(multi=True), s.itervalues(multi=True), iter(s.viewitems()), iter(s.viewvalues())]
+                    for it in its:
+                        for _ in range(op[1]):
+                            next(it, None)
+                    cx.iters += its
+                    return ['N'], s, t
+                elif o == 'selfrepr':
+                    # a copy of `s` that holds ITSELF as a value: repr must cope (list, dict, OrderedDict print `...`),
+                    # the copy module and pickle must keep the cycle
+                    ps = s.items(multi=True)
+                    x = cls(ps)
+                    kk = cx.K(op[1])
+                    x.add(kk, x)
+                    txt = repr(x)
+                    head = '%s([%s' % (type(x).__name__, ''.join(repr(p) + ', ' for p in ps))
+                    c, p5 = copy.deepcopy(x), pickle.loads(pickle.dumps(x, 2))
+                    ok = (txt.startswith(head) and txt.endswith(')])') and c[kk] is c and p5[kk] is p5
+                          and len(c) == len(x) == len(p5) and x == x and c.keys() == x.keys())
+                    return (['N'] if ok else ['?', 'self-containing dictionary: %.80r' % (txt,)]), s, t
+                elif o == 'drain':
+                    for it in cx.iters:
+                        try:
+                            for _ in range(100000):
+                                if next(it, cx) is cx:
+                                    break
+                        except CaseTimeout:
+                            raise
+                        except Exception:
+                            pass            # a stale iterator may refuse to go on (like dict's own); that is its business
+                    cx.iters = []
+                    return ['N'], s, t
+                elif o == 'rej':
+                    self._rejected_call(cx, cls, s, op[1])
+                    return ['RA'], s, t      # accepted after all: also fine as long as nothing changed
+                elif o == 'fk':
+                    cx.n += 1
+                    ks = [cx.K(k) for k in op[1]]
+                    ks = [ks, iter(ks), tuple(ks), (k for k in ks)][cx.n % 4]
+                    c = cls.fromkeys(ks) if op[2] < 0 else cls.fromkeys(ks, cx.V(op[2]))
+                    if type(c) is not cls:
+                        return ['?', 'fromkeys gave %s' % type(c).__name__], s, t
+                    return ['N'], c, t
                 elif o == 'swap':
                     return ['N'], t, s
                 elif o == 'cp':
@@ -763,6 +1421,46 @@ class C01(Property):
             raise
         except Exception as e:
             return ['X', exc_name(e)], s, t
+
+    @staticmethod
+    def _rejected_call(cx, cls, s, what):
+        """calls whose argument is outside the domain in a way the FIRST statement that looks at it notices"""
+        cx.n += 1
+        bad = [[], {}, [1, 2], set()][cx.n % 4]            # unhashable keys
+        if what == 'add':
+            s.add(bad, cx.V(0))
+        elif what == 'set':
+            s[bad] = cx.V(0)
+        elif what == 'del':
+            del s[bad]
+        elif what == 'addlist':
+            s.addlist(bad, [cx.V(0), cx.V(1)])
+        elif what == 'addlist_int':
+            s.addlist(cx.K(0), 5)
+        elif what == 'pop':
+            s.pop(bad, None)
+        elif what == 'popall':
+            s.popall(bad, None)
+        elif what == 'poplast':
+            s.poplast(bad, None)
+        elif what == 'sd':
+            s.setdefault(bad, cx.V(0))
+        elif what == 'upd_none':
+            s.update(None)
+        elif what == 'upd_int':
+            s.update(5)
+        elif what == 'ext_none':
+            s.update_extend(None)
+        elif what == 'ext_int':
+            s.update_extend(5)
+        elif what == 'ior_int':
+            s |= 5
+        elif what == 'new2':
+            cls([(cx.K(0), cx.V(0))], [(cx.K(1), cx.V(1))])
+        elif what == 'upd_pairs_unhashable_first':
+            s.update([(bad, cx.V(0)), (cx.K(0), cx.V(0))])
+        else:
+            raise common.InfraError('unknown rejected call %r' % (what,))
 
     def _newomd(self, cx, cls, s, r):
         if type(r) is not cls or r is s:
@@ -844,6 +1542,26 @@ class C01(Property):
         d['gld'] = [rd(lambda: (lambda r: 'D' if r is cx.dflt else [cx.vid(v) for v in r])(s.getlist(p, cx.D())))
                     for p in probes]
         d['bool'] = rd(lambda: int(bool(s)))
+        # the view objects: made ONCE per dictionary object and kept, so every later dump reads an old view of a
+        # dictionary that has changed since
+        vs_ = cx.views.get(id(s))
+        if vs_ is None or vs_[0] is not s:
+            vs_ = cx.views[id(s)] = (s, rd(s.viewkeys), rd(s.viewvalues), rd(s.viewitems))
+        _, vk, vv, vi = vs_
+        vforms = [VAL_FORMS[cx.u][v][-1] for v in range(5)]
+        d['vk'] = rd(lambda: [cx.kid(k) for k in vk])
+        d['vl'] = rd(lambda: [len(vk), len(vv), len(vi)])
+        d['vv'] = rd(lambda: [cx.vid(v) for v in vv])
+        d['vi'] = rd(lambda: cx.kv(vi))
+        d['vc'] = rd(lambda: [int(p in vk) for p in probes])
+        d['vic'] = rd(lambda: [[int((p, v) in vi) for v in vforms] for p in probes])
+        d['vvc'] = rd(lambda: [int(v in vv) for v in vforms])
+        # … and views made just now: the old ones must show the same (the statement does not define the views, but reads of
+        # one mapping may not disagree with one another: a view that lags behind the dictionary does)
+        d['vfresh'] = rd(lambda: [[cx.kid(k) for k in s.viewkeys()], [len(s.viewkeys()), len(s.viewvalues()), len(s.viewitems())],
+                                  [cx.vid(v) for v in s.viewvalues()], cx.kv(s.viewitems())])
+        # the storage once more, AFTER everything above was scribbled on (ownership layer of the model: `OW`)
+        d['ow'] = rd(lambda: sorted([cx.kid(k), [cx.vid(v) for v in vs]] for k, vs in s.todict(multi=True).items()))
         d['repr'] = rd(lambda: int(repr(s) == '%s([%s])' % (type(s).__name__, ', '.join(
             repr((k, v)) for k, v in s.items(multi=True)))))
         d['cnt'] = rd(lambda: type(s.counts()) is type(s))
@@ -881,6 +1599,8 @@ class C01(Property):
             tag = r[0]
             if tag in ('N', 'D'):
                 rt = tag
+            elif tag == 'RA':
+                rt = 'XReject'
             elif tag == 'V':
                 rt = 'V%s' % r[1]
             elif tag == 'L':
@@ -888,9 +1608,9 @@ class C01(Property):
             elif tag == 'KV':
                 rt = 'KV%s.%s' % (r[1], r[2])
             elif tag == 'X':
-                rt = 'X' + r[1]
+                rt = 'X' + self._canon_exc(case['ops'][len(recs)] if len(recs) < len(case['ops']) else None, r[1])
             elif tag == 'B':
-                rt = 'B%d%d' % (r[1], r[2])
+                rt = 'B%d%d%d%d' % (r[1], r[2], r[3], r[4])
             elif tag == 'O':
                 rt = 'O%s|%s|%d' % (self._pairs(r[1]), self._nats(r[2]), r[3])
             else:
@@ -914,9 +1634,27 @@ class C01(Property):
                 f += ['IV!' + d['inv']['!'], 'IK', 'IL']
             else:
                 f += ['IV' + self._pairs(d['inv'][0]), 'IK' + self._nats(d['inv'][1]), 'IL%d' % d['inv'][2]]
+            bits = lambda l: ''.join(str(x) for x in l)
+            f += ['VK' + e(d['vk'], self._nats),
+                  'VL' + e(d['vl'], lambda l: str(l[0]) if l[0] == l[1] == l[2] else '?%r' % (l,)),
+                  'VV' + e(d['vv'], self._nats), 'VI' + e(d['vi'], self._pairs), 'VC' + e(d['vc'], bits),
+                  'VIC' + e(d['vic'], lambda ll: ''.join(bits(l) for l in ll)), 'VVC' + e(d['vvc'], bits)]
+            f.append('RP' + ('C([%s])' % ', '.join('(%s, %s)' % (k, v) for k, v in d['im'])
+                             if d['repr'] == 1 and not isinstance(d['im'], dict) else '?%r' % (d['repr'],)))
             f.append('T' + e(d['t'], self._pairs))
+            f.append('OW' + e(d['ow'], lambda l: ','.join('%s=%s' % (k, self._vals(vs)) for k, vs in l)))
             recs.append(' '.join(f))
         return ';'.join(recs)
+
+    def _canon_exc(self, op, name):
+        """the statement does not say WHICH exception a malformed item or an argument outside the domain raises:
+        for those operations TypeError / ValueError are one observation (the model has one `abort` / `rejected`)"""
+        if op is not None and op[0] == 'rej':
+            return 'Reject'
+        if op is not None and name in ('TypeError', 'ValueError'):
+            if op[0] in ('new', 'upd', 'ior', 'ext') and op[1] is not None and op[1][0] == 'p' and op[1][1] == 'y':
+                return 'Boom'
+        return name
 
     # ------------------------------------------------------------------ oracle: two plain lists of pairs
     @staticmethod
@@ -942,6 +1680,8 @@ class C01(Property):
             return 'omd', [tuple(p) for p in E[1]]
         if E[0] == 'm':
             return 'map', [tuple(p) for p in E[1]]
+        if E[0] == 'mm':
+            return 'map', [tuple(p) for p in E[2]]
         if E[0] == 'sl':
             return 'pairs', list(L)
         if E[0] == 'sd' or E == ['x', 'td']:
@@ -960,6 +1700,7 @@ class C01(Property):
 
     def oracle(self, case, obs):
         L, T = [], []
+        pending = None
         self._nt = False
         interleaved = removed = False
         ops = case['ops']
@@ -980,11 +1721,39 @@ class C01(Property):
                 # the exception of the argument iterable propagates; how much of the argument was taken over
                 # before is not prescribed (any prefix), but the dictionary must be consistent afterwards
                 exp = ['X', 'Boom']
-                ps = [tuple(p) for p in op[1][2]]
-                if name == 'new':
+                ps = [tuple(p) for p in op[1][-1]]
+                if op[1][0] == 'p' and op[1][1] == 'y':
+                    # a malformed item: some TypeError / ValueError (which one is not prescribed)
+                    # (or the item is skipped: the statement is silent about malformed items; then the pairs after it count too)
+                    exp_fn = lambda ret: None if (ret[0] == 'X' and ret[1] not in ('CaseTimeout', 'RecursionError')) \
+                        or ret == ['N'] else 'a malformed item was answered with %r' % (ret,)
+                accepted = exp_fn is not None and ret == ['N']
+                if accepted:
+                    # every well-formed pair was taken (with or without the one after the malformed item), then the
+                    # keyword arguments
+                    F = [tuple(p) for p in op[2]] if name in ('new', 'upd', 'ext') else []
+                    cands = []
+                    for qs in (ps + [(0, 0)], ps):
+                        c = (list(qs) if name == 'new' else L + qs if name == 'ext' else self._replace_by(L, qs))
+                        if name == 'ext':
+                            c = c + F
+                        else:
+                            for k, v in F:
+                                c = self._assign(c, k, v)
+                        cands.append(c)
+                    removed = True
+                elif name == 'new':
                     cands = [L]    # no object was constructed: `s` is still the old dictionary
                 elif name == 'ext':
                     cands = [L + ps[:j] for j in range(len(ps), -1, -1)]
+                elif op[1][0] == 'mx':
+                    cands = []
+                    for j in range(len(ps), -1, -1):
+                        c = L
+                        for k, v in ps[:j]:
+                            c = self._assign(c, k, v)
+                        cands.append(c)
+                    removed = True
                 else:
                     cands = [self._replace_by(L, ps[:j]) for j in range(len(ps), -1, -1)]
                     removed = True
@@ -1074,6 +1843,16 @@ class C01(Property):
                     removed = True
             elif name == 'clear':
                 L = []
+            elif name in ('it', 'drain', 'selfrepr'):
+                pass
+            elif name == 'rej':
+                # outside the domain of the statement: any exception (or none) is fine, the pairs must stay as they are
+                exp_fn = lambda ret: None if ret[0] in ('X', 'RA') else 'a call outside the domain returned %r' % (ret,)
+            elif name == 'fk':
+                # an alternative constructor the statement does not define: one pair per LISTED key (the code, the model) or
+                # one per DISTINCT key (dict.fromkeys) - the dictionary must be consistent with one of them
+                dv = NONE_V if op[2] < 0 else op[2]
+                cands = [[(k, dv) for k in op[1]], [(k, dv) for k in self._keys([(k, 0) for k in op[1]])]]
             elif name == 'swap':
                 L, T = T, L
             elif name == 'cp':
@@ -1091,6 +1870,18 @@ class C01(Property):
                 else:
                     e = False
                 exp = ['B', int(e), int(not e), int(e), int(not e)]
+                if op[1][0] == 'mm' and not e and ret[0] == 'B' and ret[1] == 1:
+                    # (a defaultdict has grown by the time != / the reflected forms are evaluated: only the first answer counts)
+                    # exactly what an `other[k]`-only comparison gives: same size, every key of the dictionary either
+                    # matches or is ABSENT from the mapping while the mapping's __missing__ answer equals its value
+                    m, z, ks = dict(ps), MISSING_FORMS[op[1][1]], self._keys(L)
+                    if len(m) == len(ks) and all((m[k] == self._vals_of(L, k)[-1]) if k in m else
+                                                 (self._vals_of(L, k)[-1] == z) for k in ks):
+                        # a query: the dictionary is untouched, so the rest of the history is still judged (a different
+                        # failure further on takes precedence over this known one)
+                        pending = pending or Failure('eq:missing', 'op #%d %r: == is True although the mapping %r lacks a key '
+                                                     'of the pairs %r (its __missing__ answered for it)' % (idx, op, m, L))
+                        exp = ret
             elif name == 'sorted':
                 fn = {'n': (lambda p: p), 'k': (lambda p: p[0]), 'v': (lambda p: p[1]), 'c': (lambda p: 0)}[op[1]]
                 res = sorted(L, key=fn, reverse=bool(op[2]))
@@ -1125,7 +1916,11 @@ class C01(Property):
                 if why:
                     return Failure(name, 'op #%d %r: %s (pairs before: %r)' % (idx, op, why, L))
             elif ret != exp:
-                return Failure('ret:' + name, 'op #%d %r returned %r, a plain list of pairs gives %r' % (idx, op, ret, exp))
+                f = Failure('ret:' + name, 'op #%d %r returned %r, a plain list of pairs gives %r' % (idx, op, ret, exp))
+                if name == 'selfrepr' and ret == ['X', 'RecursionError']:
+                    pending = pending or f       # a query on a separate object: go on judging the history
+                else:
+                    return f
             # ---- every reader, after this prefix of the history
             f = self._check_reads(L, T, d)
             if f is not None:
@@ -1138,7 +1933,7 @@ class C01(Property):
         st['histories'] = st.get('histories', 0) + 1
         st['cls:' + case['c']] = st.get('cls:' + case['c'], 0) + 1
         st['univ:' + case['u']] = st.get('univ:' + case['u'], 0) + 1
-        return None
+        return pending
 
     def _check_reads(self, L, T, d):
         keys = self._keys(L)
@@ -1160,7 +1955,16 @@ class C01(Property):
             'g0': [last.get(k, NONE_V) for k in range(NK)],
             'gld': [self._vals_of(L, k) if k in last else 'D' for k in range(NK)],
             'bool': int(bool(L)), 'repr': 1, 'cnt': True, 'eqself': [1, 0],
+            'ow': sorted([k, self._vals_of(L, k)] for k in keys),
         }
+        # the view objects are not defined by the statement (the model defines them as the code does: correspondence);
+        # what the statement does demand: their reads do not raise and an old view shows what a new one shows
+        for name in ('vk', 'vl', 'vv', 'vi', 'vc', 'vic', 'vvc', 'vfresh'):
+            if isinstance(d.get(name), dict):
+                return ('read:' + name, 'reading a view object raised %s' % d[name].get('!'))
+        if [d.get('vk'), d.get('vl'), d.get('vv'), d.get('vi')] != d.get('vfresh'):
+            return ('read:views', 'a view object made earlier shows %r, one made now shows %r' % (
+                [d.get('vk'), d.get('vl'), d.get('vv'), d.get('vi')], d.get('vfresh')))
         tkeys = self._keys(T)
         exp['t2'] = [len(tkeys), tkeys, [self._vals_of(T, k) for k in range(NK)],
                      [[k, self._vals_of(T, k)[-1]] for k in tkeys]]
@@ -1171,6 +1975,16 @@ class C01(Property):
             if got != want:
                 return ('read:' + name, '%s gives %r, a plain list of pairs gives %r' % (name, got, want))
         return None
+
+    # known finding (until the fix: commit of branch r3-c01-work is in the checked tree): == against a mapping with
+    # __missing__; the oracle raises this tag only on the exact trigger and the exact wrong answer
+    def finding_eq_mapping_missing(self, case, failure):
+        return failure.tag == 'eq:missing'
+
+    # known finding (until the second fix: commit of branch r3-c01-work is in the checked tree): repr of a dictionary that
+    # contains itself
+    def finding_repr_selfref(self, case, failure):
+        return failure.tag == 'ret:selfrepr' and "['X', 'RecursionError']" in failure.what
 
     def nontrivial(self, case, obs):
         return getattr(self, '_nt', False)
@@ -1188,7 +2002,7 @@ class C01(Property):
             yield dict(case, u='S')
         for i, op in enumerate(ops):
             # shrink pair lists / value lists inside arguments
-            if op[0] in ('upd', 'ext', 'new', 'ior', 'eq') and op[1] is not None and op[1][0] in ('o', 'm', 'p'):
+            if op[0] in ('upd', 'ext', 'new', 'ior', 'eq') and op[1] is not None and op[1][0] in ('o', 'm', 'p', 'mx', 'mm'):
                 E = op[1]
                 ps = E[-1]
                 for j in range(len(ps)):
